@@ -32,8 +32,18 @@ def run(ctx):
     rule_d(ctx, ix)
 
 
-def _names(expr):
-    return {n.id for n in ast.walk(expr) if isinstance(n, ast.Name)}
+def _names(expr, func_node=None, _depth=0):
+    """Names an expression depends on; locals assigned exactly once are followed to their definition."""
+    out = {n.id for n in ast.walk(expr) if isinstance(n, ast.Name)}
+    if func_node is None or _depth > 3:
+        return out
+    more = set()
+    for nm in out:
+        defs = [st for st in ast.walk(func_node) if isinstance(st, ast.Assign) and len(st.targets) == 1
+                and isinstance(st.targets[0], ast.Name) and st.targets[0].id == nm]
+        if len(defs) == 1:
+            more |= _names(defs[0].value, func_node, _depth + 1)
+    return out | more
 
 
 def rule_a(ctx, ix, f):
@@ -49,7 +59,7 @@ def rule_a(ctx, ix, f):
     for st in keys:
         gs = [(unparse(g.test), br) for g, br in guard_chain(pm, st, f.node) if isinstance(g, ast.If)]
         variant = 'value' if any(t.replace(' ', '') == 'subset_stateisNone' and br == 'body' for t, br in gs) else 'mask'
-        names = _names(st.value)
+        names = _names(st.value, f.node)
         need = need_common | ({'target_cid'} if variant == 'value' else {'subset_state'})
         for p in sorted(need):
             ctx.ob(R, '%s key[%s]' % (f.construct, variant), 'parameter %s is part of the %s-request cache key' % (p, variant), p in names,
